@@ -243,7 +243,7 @@ impl Prop for C04 {
         // the default mode is reached both ways: untouched configuration (as `mlar repair`) or explicit setter
         rcfg.explicit_auth_mode = case.param("explicit_auth", 0) == 1;
         let ocfg = ArcCfg { variant: case.cfg.variant.clone(), layers: 0, level: 0, recipients: 0, reader: 0, rng_seed: 0, key_seed: 0 };
-        let plain = ReadCfg { keys: vec![], sched: Sched::Full, budget: u64::MAX / 2, error_at_read: None, spill_path: None, explicit_auth_mode: false };
+        let plain = ReadCfg { keys: vec![], sched: Sched::Full, budget: u64::MAX / 2, error_at_read: None, spill_path: None, explicit_auth_mode: false, replay: None };
         let mut frng = Rng::new(case.param("fault_seed", 1) as u64);
         let faults = faults_for(case, &image, hlen, chunk, &mut frng);
         let look = case.param("lookalike", 0) == 1;
